@@ -1,8 +1,183 @@
+import DeapModel.Core.Loops
 import Driver.Proto
-/-! Protocol handler for C03 (stub until the model is built). -/
+import Driver.C02
+/-!
+Protocol handler for C03 (packaged loops) — trace replay.
+
+    C03 simple   <heap> <pop> <evtable> <script> <gens>
+    C03 plus     <heap> <pop> <evtable> <script> <mu> <lambda> <gens>
+    C03 comma    <heap> <pop> <evtable> <script> <mu> <lambda> <gens>
+    C03 plusbest <heap> <pop> <evtable> <script> <mu> <lambda> <gens>
+    C03 harm     <heap> <pop> <evtable> <script> <nbrindsmodel> <gens>
+    C03 gu       <evtable> <gens>
+
+* `heap`, `pop`, `script`: as for C02 (fitness = weighted values).
+* `evtable`: `;`-separated `<genome>><fit>` pairs — the pure function `toolbox.evaluate` restricted to the
+  genomes that occur; a genome missing from the table makes the answer `bad-table`.
+* `gens`: `+`-separated generations (`-` = none), fields of a generation separated by `/`:
+    simple        `<select positions>/<mate bits>/<mutate bits>`
+    plus, comma   `<choices>/<select positions>`      choices: `x:i:j` (crossover), `m:i` (mutation), `r:i`
+    plusbest      `<choices>`
+    harm          `<natural turns>/<accepted turns>`  turns: `p:<acc>`, `x:i:j:<acc1>:<acc2>`, `m:i:<acc>`, `r:i:<acc>`
+    gu            `<objs>/<order>`                     objs `;`-separated `<oid>:<genome>|<fit>` — what
+                                                       generate() returned (new or persistent individuals)
+  lists are comma-separated, `-` = empty.
+
+Answer: `log=<gen:nevals,…> evals=<gen:oid,…> shown=<oids> bounds=<B0>+<B1>+… vlog=<variation calls>`
+where `Bk = <population oids>|<fit;fit;…>` is the population after generation k (every boundary).
+`reject` when the machine does not allow the trace (wrong selection size, position out of range, tape or
+script not used up, …), `assert` for eaMuCommaLambda's `lambda_ >= mu`, `bad-op` on malformed input.
+-/
 namespace DriverC03
+open Proto Variation Loops DriverC02
+
+def parseTable (s : String) : Option (List (List Int × List Int)) :=
+  if s = "-" then some [] else
+  (s.splitOn ";").mapM (fun e =>
+    match e.splitOn ">" with
+    | [g, f] => do some ((← parseList parseInt g), (← parseList parseInt f))
+    | _ => none)
+
+/-- the evaluate function: table lookup; `[]` (no real fitness is empty) marks a missing genome -/
+def evOf (tbl : List (List Int × List Int)) (g : List Int) : List Int :=
+  match tbl.find? (fun e => e.1 == g) with
+  | some e => e.2
+  | none => []
+
+def parseBits (s : String) : Option (List Bool) :=
+  if s = "-" then some [] else s.toList.mapM (fun c => if c = '1' then some true else if c = '0' then some false else none)
+
+def parseChoice (s : String) : Option Choice :=
+  match s.splitOn ":" with
+  | ["x", i, j] => do some (Choice.cx (← parseNat i) (← parseNat j))
+  | ["m", i] => (parseNat i).map Choice.mutn
+  | ["r", i] => (parseNat i).map Choice.rep
+  | _ => none
+
+def parseTurn (s : String) : Option HStep :=
+  match s.splitOn ":" with
+  | ["p", a] => (parseBool a).map HStep.pick
+  | ["x", i, j, a, b] => do some (HStep.cx (← parseNat i) (← parseNat j) (← parseBool a) (← parseBool b))
+  | ["m", i, a] => do some (HStep.mutn (← parseNat i) (← parseBool a))
+  | ["r", i, a] => do some (HStep.rep (← parseNat i) (← parseBool a))
+  | _ => none
+
+def parseOidObj (s : String) : Option (Nat × Obj) :=
+  match s.splitOn ":" with
+  | [o, x] => do some ((← parseNat o), (← parseObj x))
+  | _ => none
+
+def parseOidObjs (s : String) : Option (List (Nat × Obj)) :=
+  if s = "-" then some [] else (s.splitOn ";").mapM parseOidObj
+
+def parseGens {β : Type} (p : List String → Option β) (s : String) : Option (List β) :=
+  if s = "-" then some [] else (s.splitOn "+").mapM (fun g => p (g.splitOn "/"))
+
+def showFit (o : Obj) : String := match o.fit with | none => "none" | some f => showList toString f
+
+def showBound (s : LState) : String :=
+  showList toString s.pop ++ "|" ++
+    (if s.pop.isEmpty then "-" else ";".intercalate (s.pop.map (fun o => showFit (s.st.heap o))))
+
+def showPair (p : Nat × Nat) : String := toString p.1 ++ ":" ++ toString p.2
+
+/-- Run the generations one by one (the fold that `runGens` is), keeping every boundary. -/
+def replay (ev : List Int → List Int) : List (Step Script) → Nat → Script → LState → List String →
+    Option (Script × LState × List String)
+  | [], _, t, s, acc => some (t, s, acc)
+  | stp :: rest, g, t, s, acc =>
+    match generation ev stp g t s with
+    | none => none
+    | some (t1, s1) => replay ev rest (g + 1) t1 s1 (acc ++ [showBound s1])
+
+def missing (s : LState) : Bool :=
+  s.evals.any (fun e => (s.st.heap e.2).fit == some [])
+
+/-- `top` = the same run through the model's packaged function (`eaSimple`, …): must agree with the
+generation-by-generation replay. -/
+def finish (top : Option (Script × LState)) (r : Option (Script × LState × List String)) : String :=
+  match r with
+  | none => if top.isNone then "reject" else "internal-mismatch"
+  | some (t, s, bounds) =>
+    if (match top with
+        | none => true
+        | some (_, s') => !(s'.pop == s.pop && s'.log == s.log && s'.evals == s.evals && s'.shown == s.shown))
+    then "internal-mismatch"
+    else if !t.ok || !t.calls.isEmpty then "reject"
+    else if missing s then "bad-table"
+    else
+      "log=" ++ showList showPair s.log ++ " evals=" ++ showList showPair s.evals
+        ++ " shown=" ++ showList toString s.shown
+        ++ " bounds=" ++ (if bounds.isEmpty then "-" else "+".intercalate bounds)
+        ++ " vlog=" ++ showList showEv s.st.log
+
+structure Common where
+  objs : List Obj
+  pop : List Nat
+  tbl : List (List Int × List Int)
+  script : List Call
+
+def parseCommon (heaps pops tbls scr : String) : Option Common := do
+  let objs ← parseHeap heaps
+  let pop ← parseList parseNat pops
+  let tbl ← parseTable tbls
+  let sc ← parseScript scr
+  if pop.all (· < objs.length) then some ⟨objs, pop, tbl, sc⟩ else none
+
+/-- population-based loops: generation 0, then the given steps from generation 1 -/
+def runPopLoop (c : Common) (steps : List (Step Script))
+    (top : (List Int → List Int) → Script → LState → Option (Script × LState)) : String :=
+  let s0 : LState := { st := mkState c.objs, pop := c.pop }
+  let ev := evOf c.tbl
+  let g0 := gen0 ev s0
+  finish (top ev ⟨c.script, true⟩ s0) (replay ev steps 1 ⟨c.script, true⟩ g0 [showBound g0])
 
 def handle : List String → String
+  | ["simple", heaps, pops, tbls, scr, gens] =>
+    match parseCommon heaps pops tbls scr, parseGens (fun
+        | [a, b, c] => do some (⟨← parseList parseNat a, ← parseBits b, ← parseBits c⟩ : SimpleDec)
+        | _ => none) gens with
+    | some c, some ds => runPopLoop c (ds.map (simpleStep scripted)) (fun ev t s => eaSimple scripted ev ds t s)
+    | _, _ => "bad-op"
+  | [kind, heaps, pops, tbls, scr, mus, lams, gens] =>
+    match parseCommon heaps pops tbls scr, parseNat mus, parseNat lams with
+    | some c, some mu, some lam =>
+      if kind = "plusbest" then
+        match parseGens (fun | [a] => parseList parseChoice a | _ => none) gens with
+        | some ds => runPopLoop c (ds.map (plusBestStep scripted mu lam))
+            (fun ev t s => eaMuPlusLambdaBest scripted ev mu lam ds t s)
+        | none => "bad-op"
+      else
+        match parseGens (fun
+            | [a, b] => do some (⟨← parseList parseChoice a, ← parseList parseNat b⟩ : MuLamDec)
+            | _ => none) gens with
+        | some ds =>
+          if kind = "plus" then
+            runPopLoop c (ds.map (plusStep scripted mu lam)) (fun ev t s => eaMuPlusLambda scripted ev mu lam ds t s)
+          else if kind = "comma" then
+            if commaAssert mu lam then
+              runPopLoop c (ds.map (commaStep scripted mu lam))
+                (fun ev t s => eaMuCommaLambda scripted ev mu lam ds t s)
+            else "assert"
+          else "bad-op"
+        | none => "bad-op"
+    | _, _, _ => "bad-op"
+  | ["harm", heaps, pops, tbls, scr, nbrs, gens] =>
+    match parseCommon heaps pops tbls scr, parseNat nbrs, parseGens (fun
+        | [a, b] => do some (⟨← parseList parseTurn a, ← parseList parseTurn b⟩ : HarmDec)
+        | _ => none) gens with
+    | some c, some nbr, some ds =>
+      runPopLoop c (ds.map (harmStep scripted nbr)) (fun ev t s => harm scripted ev nbr ds t s)
+    | _, _, _ => "bad-op"
+  | ["gu", tbls, gens] =>
+    match parseTable tbls, parseGens (fun
+        | [a, b] => do some ((← parseOidObjs a), (← parseList parseNat b))
+        | _ => none) gens with
+    | some tbl, some gs =>
+      let s0 : LState := { st := mkState [], pop := [] }
+      finish (eaGenerateUpdate (evOf tbl) gs ⟨[], true⟩ (mkState []))
+        (replay (evOf tbl) (gs.map (fun g => guStep g.1 g.2)) 0 ⟨[], true⟩ s0 [])
+    | _, _ => "bad-op"
   | _ => "bad-op"
 
 end DriverC03
